@@ -387,7 +387,7 @@ func init() {
 			"compiled by the real compiler; per file x formatter (ES5, ES6) x bundle: soyjs.Write versus the Lean model on the compiled trees, compared as JavaScript token streams (string literals verbatim); " +
 			"the model runs under three iteration orders of the Go maps; non-trivial = the file contains a call, a message, a global, a map literal or a print directive",
 		Gen:   genC14gen,
-		Canon: jsCanon,
+		CanonBoth: jsCanon,
 	})
 }
 
